@@ -2,6 +2,41 @@
 """Regenerates MANIFEST.json from the table below (run after adding a property)."""
 import json, subprocess
 CLAIMED = {
+ "C07": dict(
+   text="Robustness fuzzing of parse + check: random bytes, token soups with grammar-biased transitions, noisy statement grammars, typed near-valid programs, token/byte mutations and splices of the repository's ~700 program texts, every prefix of those programs, and 31 deep-nesting constructs up to depth 300; oracle = returns without panic / process death / CPU overrun, with a program or exactly one error whose position is valid for the text by an independent line splitter.",
+   note="Trusted: the harness's own line/column model; the worker process model (8 MiB stack like the real binary's main thread) for stack overflows; a 120 CPU-s bound stands in for 'bounded time'.",
+   technique="generation-based and mutation-based fuzzing (proptest-driven) with a validity-predicate oracle; exhaustive prefix truncation",
+   design="6/C07"),
+ "C08": dict(
+   text="Wide type-directed program fuzzing over the whole statement/built-in repertoire (with planted ill-typed sub-expressions) plus all repository programs on random console input; only checker-accepted programs are judged; oracle = translation and execution end in normal termination or a run-time error with code and position, never a panic, process death or unreportable error.",
+   note="Trusted: the in-memory run hook; machine-touching built-ins (INKEY$, DEF SEG = 0, real SYSTEM) are excluded; budget exhaustion is inconclusive.",
+   technique="proptest tape-decoded wide program generation + crash/validity oracle",
+   design="6/C08"),
+ "C10": dict(
+   text="Bounded-exhaustive enumeration of all operator sequences up to length 3 (5 in thorough) over the 13 binary and 2 unary operators with parenthesis placements, plus random longer chains: the parsed tree is compared node for node with a reference precedence-climbing parser built from the statement's rank table, and printed values with the reference tree's value; all 65536 16-bit literal values in decimal/hex/octal (leading zeros, signs), sampled 32-bit values, long decimals and fractional literals compared with the statement's type/value rule.",
+   note="Trusted: the reference precedence parser and literal rule transcribed from the statement; value-preserving regroupings (a AND (b AND c)) are counted, not failed.",
+   technique="bounded-exhaustive enumeration + proptest random chains against a reference parser/evaluator",
+   design="6/C10"),
+ "C11": dict(
+   text="Fault injection: one fault of ten kinds (syntax x4, type mismatch, undefined label, argument count, division by zero, subscript, overflow) replaces a statement chosen anywhere in an accepted generated program rendered under a random layout (case, blanks/tabs, blank and comment lines, colon joins, LF/CRLF/CR); the reported row/column is compared with the printer's site map, and for run-time faults the envelope's call-site rows with the reference semantics' call stack.",
+   note="Trusted: the printer's site map (row/column spans under exactly the rendered layout) and the reference semantics for where run-time faults are raised.",
+   technique="proptest program generation + fault injection + differential position oracle (site map)",
+   design="6/C11"),
+ "C13": dict(
+   text="Exhaustive enumeration of all 26x5 single-letter DEFtype configurations and all 325x5 letter ranges crossed with declaration templates (35 global x 30 subprogram kinds, function-name templates, 422 must-reject templates), plus random combinations; an independent resolver written from the statement and the README predicts accept/reject and which storage every spelling denotes, observed through distinct values printed through every spelling.",
+   note="Trusted: the independent resolver; configurations the stated rules do not decide are discarded and counted.",
+   technique="exhaustive configuration enumeration + proptest random configurations against a reference resolver",
+   design="6/C13"),
+ "C14": dict(
+   text="Differential/metamorphic testing of constants, implementation against itself: for generated constant expressions (all operators, five types, boundary literals, earlier constants, module and SUB scope, bare and suffixed names) CONST c = e : PRINT c must relate to PRINT e (same output; rejected for overflow / division by zero exactly when the run-time evaluation raises 6 / 11), substituting (e) for c must not change a program, and the constant's type must be the one suffix it can be referenced through.",
+   note="Trusted: nothing beyond the hook run entry; no reference semantics (the run-time evaluation of e is the oracle for the constant).",
+   technique="proptest expression generation + differential/metamorphic relation (constant folding vs run-time evaluation)",
+   design="6/C14"),
+ "C18": dict(
+   text="Stateful model-based testing: histories of 3-26 file operations (OPEN in four modes, PRINT #, INPUT #, LINE INPUT #, EOF, CLOSE, KILL, NAME, FIELD, LSET, PUT, GET, protocol violations of 30 kinds) over three handles and four names are run as one program each under a handler and, for a sample, without handler; a model of the store and the handle table predicts every value read, every error code and the final bytes of every file; a second generator feeds the same bytes through a file and through the console.",
+   note="Trusted: the store/handle model written from the statement; lenient only where the statement is silent (trailing blanks of INPUT # fields, RANDOM padding).",
+   technique="proptest stateful history generation against a reference model of the file store and handle table",
+   design="6/C18"),
  "C06": dict(
    text="Exhaustive route x type-pair x boundary-value matrix (assignment, by-value parameter, FOR initial value, function result, array element, record field, READ, INPUT; + - * over boundary pairs; unary minus on the minima) with an exact expectation per observation (exactly rounded value, ties either way, or Overflow at that statement), and a value-level typed-variable invariant evaluated at every statement boundary of every run (matrix and random programs) through the tick hook.",
    note="Trusted: exact quarter-unit arithmetic of the expectation; the hook's variable dump; f32/f64 parsing of printed values. Known unguarded INTEGER/LONG arithmetic is attributed to its finding.",
